@@ -152,11 +152,14 @@ pub struct RunOpts {
     pub stride: usize,
     /// leave the generator's seed to the subject (the production path: seeded from the OS)
     pub no_seed_override: bool,
+    /// the driver may also name the test's declared (virtual) signals in its answers: its list of
+    /// known signals is extended by clones of them taken from the public `signals` field
+    pub know_declared: bool,
 }
 
 impl RunOpts {
     pub fn new(max_next: usize) -> Self {
-        RunOpts { max_next, after_end: 0, continue_after_error: false, seed: 1, budget: DEFAULT_BUDGET, collect_vars: false, collect_key: false, extra_known: vec![], repeat_last: false, poke: false, stride: 0, no_seed_override: false }
+        RunOpts { max_next, after_end: 0, continue_after_error: false, seed: 1, budget: DEFAULT_BUDGET, collect_vars: false, collect_key: false, extra_known: vec![], repeat_last: false, poke: false, stride: 0, no_seed_override: false, know_declared: false }
     }
 }
 
@@ -271,6 +274,9 @@ where
     known.extend(opts.extra_known.iter().cloned());
     let mut driver = ScriptDriver::<OV>::new(&known, script);
     driver.repeat_last = opts.repeat_last;
+    if opts.know_declared {
+        driver.known.extend(tc.signals.iter().filter(|s| !s.is_input() && !s.is_output()).cloned());
+    }
     hooks::set_seed_override(if opts.no_seed_override { None } else { Some(opts.seed) });
     let _ = hooks::take_draw_log();
     let mut obs = Obs {
